@@ -32,10 +32,11 @@ CMP_OPS = {"<": "LT", "<=": "LTE", ">": "GT", ">=": "GTE", "<>": "NEQ"}
 
 def decode_literal(text: str, i: int, profile: str):
     """Decode a quoted literal starting at text[i] (the opening quote).  Returns (tokens, next_i)."""
-    quote, esc, wm, ws, add_esc, _ = STR_PROFILES[profile]
-    if text[i] != quote:
-        raise DecodeError(f"expected quote at {i}")
-    i += 1
+    quote, esc, wm, ws, add_esc, _ = STR_PROFILES[profile] if isinstance(profile, str) else profile
+    if quote:
+        if not text.startswith(quote, i):
+            raise DecodeError(f"expected quote at {i}")
+        i += len(quote)
     # pySigma escapes character-wise: every character of the wildcard tokens, the quote and the
     # additionally escaped characters is an escapable unit of the target language
     escapable = sorted(set((wm or "") + (ws or "") + quote + add_esc))
@@ -43,8 +44,10 @@ def decode_literal(text: str, i: int, profile: str):
     n = len(text)
     while True:
         if i >= n:
+            if not quote:  # unquoted literal: ends with the text
+                return tuple(out), i
             raise DecodeError("unterminated literal")
-        if text.startswith(esc, i):
+        if esc and text.startswith(esc, i):
             j = i + len(esc)
             hit = next((e for e in escapable if text.startswith(e, j)), None)
             if hit is not None:
@@ -54,7 +57,7 @@ def decode_literal(text: str, i: int, profile: str):
             out.append(("c", text[i]))
             i += 1
             continue
-        if text.startswith(quote, i):
+        if quote and text.startswith(quote, i):
             return tuple(out), i + len(quote)
         if wm and text.startswith(wm, i):
             out.append(STAR)
